@@ -79,7 +79,7 @@ func halves(b []byte) (byte, byte, bool) {
 func main() {
 	seed := flag.Uint64("seed", 1, "seed")
 	nh := flag.Int("n", 100, "histories")
-	workload := flag.String("workload", "mem", "mem | mem-halves | file-disjoint | file-handoff | file-shared | file-writers")
+	workload := flag.String("workload", "mem", "mem | mem-halves | file-disjoint | file-first | file-handoff | file-shared | file-writers")
 	maxThreads := flag.Int("threads", 5, "max goroutines")
 	maxOps := flag.Int("ops", 5, "max ops per goroutine")
 	sync_ := flag.Bool("sync", false, "spin barrier before every call so that calls of different goroutines overlap")
@@ -102,7 +102,10 @@ func main() {
 		r := master.Fork()
 		nthreads := 2 + r.Intn(*maxThreads-1)
 		n := uint64(1 + r.Intn(3))
-		if *workload == "file-disjoint" {
+		if *workload == "file-first" {
+			nthreads = *maxThreads
+		}
+		if *workload == "file-disjoint" || *workload == "file-first" {
 			n = uint64(nthreads) * 2
 		}
 		if *workload == "file-writers" {
@@ -132,6 +135,9 @@ func main() {
 			wg.Add(1)
 			tr := r.Fork()
 			nops := 1 + tr.Intn(*maxOps)
+			if *workload == "file-first" {
+				nops = 2
+			}
 			// everything is prepared before the hot loop so that the calls dominate the time
 			plan := make([]rec, nops)
 			blocks := make([][]byte, nops)
@@ -147,6 +153,11 @@ func main() {
 					}
 				}
 				k := tr.Intn(10)
+				if *workload == "file-first" {
+					// a fresh file; every goroutine writes blocks nobody has written yet, all at once
+					a = uint64(t)*2 + uint64(i%2)
+					k = 0
+				}
 				if *workload == "file-shared" || *workload == "file-writers" {
 					// file-shared: one writer (goroutine 0), every other goroutine only reads:
 					// writes to one address never overlap each other, reads race with them on
@@ -250,6 +261,22 @@ func main() {
 		}
 		close(start)
 		wg.Wait()
+		if *workload == "file-first" {
+			// at rest: read every block back
+			buf := make([]byte, BS)
+			for a := uint64(0); a < n; a++ {
+				rd := rec{kind: 2, a: a}
+				rd.ts1 = ctr.Add(1)
+				d.ReadTo(a, buf)
+				rd.ts2 = ctr.Add(1)
+				if y, ok := uniform(buf); ok {
+					rd.resp = fmt.Sprintf("B %d", y)
+				} else {
+					rd.resp = "TORN " + enc.RLE(buf)
+				}
+				recs[0] = append(recs[0], rd)
+			}
+		}
 		if *workload == "file-writers" {
 			// at rest: on every address write 1, 2, 1 with a read after each (none of these overlaps anything)
 			buf := make([]byte, BS)
